@@ -8,7 +8,8 @@
    attrs classes = VRec with the source's field names.
    Trusted in this tie: the translator's reading of Python (struct.pack formats as Prim.pack_list, the _util writers as
    the Prim writers, dict iteration in insertion order, `+=` / list-append-join / `+` as concatenation in evaluation
-   order, isinstance/assert guards and None-defaults dropped).  Not translated: encode_produce_request (message sets). *)
+   order, isinstance/assert guards and None-defaults dropped).  KafkaCodec._encode_message_set / _encode_message are NOT
+   translated: the term for encode_produce_request calls the model's Model.MsgSet.encode_message_set. *)
 From Coq Require Import String.
 From AV Require Import Base.Util Model.Prim Model.MsgSet Model.Requests Model.EncDSL Model.EncAst Proofs.EncDSLSound.
 Open Scope string_scope.
@@ -93,6 +94,17 @@ Theorem C04gen_fetch : forall cid corr ps max_wait min_bytes v,
 Proof. exact fetch_sound. Qed.
 Print Assumptions C04gen_fetch.
 
+(* PARTIAL: the encoder language has no clock (a format-1 message without timestamp would be stamped 0), so the
+   statement is for payloads whose messages carry their timestamps ([stamped]: no message makes _encode_message read
+   the clock - true of everything create_message builds); for those the clock of the model is irrelevant.  Missing for
+   the full statement: clock readings threaded through the interpreter. *)
+Theorem C04gen_produce_partial : forall clock cid corr ps acks timeout v,
+  stamped ps = true ->
+  run ast_encode_produce_request [vbytes cid; VInt corr; VList (map produce_val ps); VInt acks; VInt timeout; VInt v]
+  = encode_produce_request clock cid corr ps acks timeout v.
+Proof. exact produce_sound. Qed.
+Print Assumptions C04gen_produce_partial.
+
 (* non-vacuity: the terms are run, they do not merely type-check *)
 Example gen_heartbeat_bytes :
   run ast_encode_heartbeat_request
@@ -103,3 +115,13 @@ Example gen_fetch_error_kind :
   run ast_encode_fetch_request [vbytes []; VInt 0; VList [fetch_val (mkFetch (Some [233]) 0 0 0)]; VInt 0; VInt 0; VInt 0]
   = Err UnicodeErr.
 Proof. vm_compute. reflexivity. Qed.
+Example gen_produce_stamped :
+  stamped [mkProduce (Some [116]) 0 [mkMessage 1 0 None (Some [1]) (Some 5); mkMessage 0 0 (Some []) None None]] = true /\
+  match run ast_encode_produce_request
+            [vbytes [99]; VInt 1; VList [produce_val (mkProduce (Some [116]) 0 [mkMessage 1 0 None (Some [1]) (Some 5);
+                                                                               mkMessage 0 0 (Some []) None None])];
+             VInt 1; VInt 1000; VInt 2] with
+  | Ok w => length w = 97%nat
+  | Err _ => False
+  end.
+Proof. split; vm_compute; reflexivity. Qed.
